@@ -259,6 +259,12 @@ def render_package(prog):
                      '  command: {executable: echo, arguments: "%s"}' % ref, '  references: ["%s"]' % ref]
             o['ref'] = ref
             o['stage'] = tgt_stage + 1
+    if prog.get('linker'):
+        # a plain component of the last stage whose input is staged by linking / copying a directory
+        last_ = max([lp['import_stage'] + span_of(lp) for lp in loops] + [o['stage'] for lp in loops for o in lp['outside']])
+        main += ['- stage: %d' % last_, '  name: Linker', '  command: {executable: echo, arguments: "GenerateInput"}',
+                 '  references: ["stage0.GenerateInput:%s"]' % prog['linker']]
+        prog['last_stage'] = last_
     if prog.get('bomb'):
         # a component of a later stage without producers: it starts early, next to the loop (c02loop lets it fail)
         last = max([lp['import_stage'] + span_of(lp) for lp in loops] + [o['stage'] for lp in loops for o in lp['outside']])
